@@ -491,19 +491,21 @@ class Run:
             small = ddmin(ops, stream.keep_prefix, fails)
             io, mo = stream.both(small)
             why2 = safe_pred(stream, small, io)
-            if why2 is None and getattr(stream, "timed", False):
+            if getattr(stream, "timed", False):
                 # a stream with real waits: under heavy machine load a scenario clock can be off by more than the predicate's
                 # tolerance. A failure that three further runs of the very same case do not show again is not reported (it is
                 # counted in the evidence); a real violation of a timed property is deterministic in its case.
-                again = None
+                # (every one of three further runs has to show it: on a machine so loaded that clocks slip, one run in three showing
+                #  a one-second boundary flip is the expected noise)
+                again = why2
                 for _ in range(3):
+                    if not again:
+                        break
                     io, mo = stream.both(small)
                     again = safe_pred(stream, small, io)
-                    if again:
-                        break
                 if not again:
                     st["not_reproduced"] = st.get("not_reproduced", 0) + 1
-                    self.log(f"stream {stream.name}: a predicate failure did not reproduce in 4 re-runs (timing): {why[:160]}")
+                    self.log(f"stream {stream.name}: a predicate failure did not show again in every one of 3 re-runs (timing): {why[:160]}")
                     continue
                 why2 = again
             note = ""
@@ -535,10 +537,10 @@ class Run:
                 return stream.canon(c, a) != stream.canon(c, b)
             small = ddmin(ops, stream.keep_prefix, differs)
             io, mo = stream.both(small)
-            if getattr(stream, "timed", False) and stream.canon(small, io) == stream.canon(small, mo):
-                if not any(differs(small) for _ in range(3)):
+            if getattr(stream, "timed", False):
+                if stream.canon(small, io) == stream.canon(small, mo) or not all(differs(small) for _ in range(3)):
                     st["not_reproduced"] = st.get("not_reproduced", 0) + 1
-                    self.log(f"stream {stream.name}: a model/implementation difference did not reproduce in 4 re-runs (timing)")
+                    self.log(f"stream {stream.name}: a model/implementation difference did not show again in every one of 3 re-runs (timing)")
                     continue
                 io, mo = stream.both(small)
             why = safe_pred(stream, small, io)
